@@ -17,7 +17,9 @@ sys.path.insert(0, os.environ.get('YLD_REPO_SRC', '/repo/src'))
 from yldprolog import engine  # noqa
 from yldprolog.compiler import compile_prolog_from_string  # noqa
 
-SHAPES = ['V', 'g(V)', 'g(h(V))', 'p(V,V)', 'p(g(V),V)', 'p(k,g(V))', 'p(V,W)', 'g(p(V,W))', 'p(k,V)']
+SHAPES = ['V', 'g(V)', 'g(h(V))', 'p(V,V)', 'p(g(V),V)', 'p(k,g(V))', 'p(V,W)', 'g(p(V,W))', 'p(k,V)',
+          # lists: lst(a,b,V) is [a,b|V] (open tail), lst(V,nil) is [V]
+          'lst(a,b,V)', 'lst(V,W)', 'g(lst(k,V))', 'lst(V,nil)']
 
 
 def build(yp, shape, env):
@@ -29,6 +31,8 @@ def build(yp, shape, env):
         if shape[0].isupper():
             env[shape] = yp.variable()
             return env[shape]
+        if shape == 'nil':
+            return yp.ATOM_NIL
         return yp.atom(shape)
     name, rest = shape.split('(', 1)
     rest = rest[:-1]
@@ -42,6 +46,12 @@ def build(yp, shape, env):
             depth -= ch == ')'
             cur += ch
     args.append(cur)
+    if name.strip() == 'lst':
+        items = [build(yp, a, env) for a in args]
+        tail = items[-1]
+        for x in reversed(items[:-1]):
+            tail = yp.listpair(x, tail)
+        return tail
     return yp.functor(name, [build(yp, a, env) for a in args])
 
 
@@ -66,6 +76,13 @@ def run(sc):
         s2 = shape
         for k, v in b2.items():
             s2 = s2.replace(k, v)
+        def prolog(t):
+            # lst(a,b,T) -> [a,b|T] ; nil -> []
+            import re as _re
+            while 'lst(' in t:
+                t = _re.sub(r'lst\(([^()]*),([^(),]*)\)', lambda m: '[%s|%s]' % (m.group(1), m.group(2)), t, count=1)
+            return t.replace('nil', '[]')
+        s1, s2 = prolog(s1), prolog(s2)
         yp.load_script_from_string(compile_prolog_from_string('both :- f(%s), f(%s).\n' % (s1, s2)))
         got = len(list(yp.query('both', [])))
         want = answers_alone(shape, b1) * answers_alone(shape, b2)
@@ -156,7 +173,8 @@ def scenarios(seed, count):
                 b2 = {v: c2 for v in vs}
                 for order in ([0, 1], [1, 0], [0, 0, 1], [0, 1, 0, 1]):
                     out.append(dict(shape=shape, b1=b1, b2=b2, order=order))
-                out.append(dict(shape=shape, b1=b1, b2=b2, order=[], compiled=True))
+                if 'lst(' not in shape:        # (the grammar wants a variable after `|`: no constant instance to write down)
+                    out.append(dict(shape=shape, b1=b1, b2=b2, order=[], compiled=True))
     rng.shuffle(out)
     return out[:count]
 
@@ -179,9 +197,9 @@ def main():
         if not ok and len(fails) < 20:
             fails.append(dict(scenario=sc, detail=detail))
     print(json.dumps(dict(evaluations=n, distinct_nontrivial=len(nontriv), failures=fails, failure_count=len(fails), samples=scs[:3],
-                          exhaustive=count >= 437,
-                          rule='9 fact shapes (variables at depth 0-2, repeated, two variables) x 3x3 constant choices for the two uses x 4 interleavings '
-                               '+ compiled conjunction (405 scenarios) + 32 facts asserted through the API with a bound variable argument (value kind x chain x later rebinding x position), shuffled by seed; non-trivial = the two uses bind the fact variables differently')))
+                          exhaustive=count >= 581,
+                          rule='13 fact shapes (variables at depth 0-2, repeated, two variables, lists with an open tail) x 3x3 constant choices for the two uses x 4 interleavings '
+                               '+ compiled conjunction (549 scenarios) + 32 facts asserted through the API with a bound variable argument (value kind x chain x later rebinding x position), shuffled by seed; non-trivial = the two uses bind the fact variables differently')))
 
 
 if __name__ == '__main__':
